@@ -196,11 +196,22 @@ func RunLife(sc LifeScenario) (evs []Ev, inconclusive string) {
 	row := func(i int) map[string]any {
 		return map[string]any{"id": i, "v": i%5 - 1, "g": fmt.Sprintf("g%d", i%3), "ts": int64(1000 + i*200)}
 	}
-	stop := func(who int) {
+	stopRaw := func(who int) {
 		log(Ev{"e": "stop.call", "who": who, "q": atomic.AddInt64(&seq, 1)})
 		t0 := time.Now()
 		guard("Stop", s.Stop)
 		log(Ev{"e": "stop.ret", "who": who, "q": atomic.AddInt64(&seq, 1), "ms": time.Since(t0).Milliseconds()})
+	}
+	// a Stop that has not returned after 20 s (four grace periods) is recorded as a deadlock and abandoned, so that a broken
+	// engine cannot hang the whole run
+	stop := func(who int) {
+		done := make(chan struct{})
+		go func() { stopRaw(who); close(done) }()
+		select {
+		case <-done:
+		case <-time.After(20 * time.Second):
+			log(Ev{"e": "deadlock", "where": "Stop did not return within 20 s", "q": atomic.AddInt64(&seq, 1)})
+		}
 	}
 	watchdog := time.AfterFunc(60*time.Second, func() {
 		// nothing has finished for a minute: record where every goroutine stands
